@@ -626,7 +626,20 @@ func hostile(r *rng.R, kind string, ascii bool) string {
 	}
 	valid := func() string {
 		s, _ := apifu.SerializeCursor(randKey())
+		if s == "" {
+			s = "AA"
+		}
 		return s
+	}
+	// the bytes behind a valid cursor (whatever alphabet / padding the implementation uses)
+	validBytes := func() []byte {
+		s := strings.TrimRight(valid(), "=")
+		s = strings.NewReplacer("+", "-", "/", "_").Replace(s)
+		b, err := b64.DecodeString(s)
+		if err != nil || len(b) == 0 {
+			return []byte{0xd3, 0, 0, 0, 0, 0, 0, 0, 7}
+		}
+		return b
 	}
 	randBytes := func(n int) []byte {
 		b := make([]byte, n)
@@ -656,7 +669,7 @@ func hostile(r *rng.R, kind string, ascii bool) string {
 		s[r.Intn(len(s))] = alphabet[r.Intn(64)]
 		return string(s)
 	case 3: // one bit of the msgpack bytes flipped
-		b, _ := b64.DecodeString(valid())
+		b := validBytes()
 		i := r.Intn(len(b))
 		b[i] ^= 1 << uint(r.Intn(8))
 		return b64.EncodeToString(b)
@@ -668,8 +681,7 @@ func hostile(r *rng.R, kind string, ascii bool) string {
 		s := valid()
 		return rng.Pick(r, []string{s + "=", s + "==", strings.ReplaceAll(s, "_", "/"), strings.ReplaceAll(s, "-", "+"), " " + s, s + " ", s + "A", s + "AA", s + "AAAA"})
 	case 6: // valid cursor followed by trailing bytes
-		b, _ := b64.DecodeString(valid())
-		return b64.EncodeToString(append(b, randBytes(1+r.Intn(4))...))
+		return b64.EncodeToString(append(validBytes(), randBytes(1+r.Intn(4))...))
 	case 7: // every integer format of msgpack, possibly truncated
 		codes := []struct {
 			c byte
@@ -889,9 +901,9 @@ func intp(i int) *int { return &i }
 func main() {
 	debug.SetMemoryLimit(2 << 30)
 	hx.Main(func(h *hx.H) {
-		maxK := 4
+		maxK := 5
 		if h.Thorough() {
-			maxK = 5
+			maxK = 6
 		}
 
 		// ---- 1. codec: boundary values first
@@ -948,6 +960,10 @@ func main() {
 			for c := 5; c <= 10*k+5; c += 5 {
 				cursors = append(cursors, cursorOf(c))
 			}
+			if k <= 2 {
+				// the literal null and the empty string both mean "no cursor"
+				cursors = append(cursors, cursorArg{mode: 1}, cursorArg{mode: 2, str: "", known: true})
+			}
 			for _, key := range allKeys("int") {
 				for _, c := range counts {
 					for _, after := range cursors {
@@ -968,7 +984,7 @@ func main() {
 		}
 
 		// ---- 4. walks: every page size over small sets, both directions, all modes
-		maxW := maxK + 2
+		maxW := maxK + 1
 		for _, kind := range []string{"int", "str"} {
 			for k := 0; k <= maxW; k++ {
 				for n := 1; n <= k+1; n++ {
@@ -980,6 +996,11 @@ func main() {
 								if kind == "str" {
 									for i := range es {
 										es[i].Key = fmt.Sprintf("k%02d", es[i].Key.(int))
+									}
+								} else if k%2 == 1 {
+									// negative, zero and positive cursors ('-' and '_' in the serialised form)
+									for i := range es {
+										es[i].Key = es[i].Key.(int) - 10*(k/2+1)
 									}
 								}
 								return walkCase(setup{key: key, edges: shuffle(r, es), policy: r.Intn(5)}, fwd, n, r)
